@@ -50,6 +50,28 @@ theorem idle_not_early (tm : Timer) (es es' : List TEv) (h0 : tm.expired = none)
   ⟨progress_before_expiry es es' h0 hw ((adm_iff_admAll tm _).1 ha) hopen c hc,
    expiry_after_marks _ h0 hw ((adm_iff_admAll tm _).1 ha) c hc⟩
 
+/-- **A half-closed tunnel is not cut short**: in every state an admissible trace reaches, the time at which the
+surviving direction of a half-closed tunnel would be ended by the timer is at least `T` after that direction's
+last transfer, and every further transfer moves it to `T` after that transfer -/
+theorem half_closed_not_early (tm : Timer) (es : List TEv) (hw : tm.WF) (ha : Adm tm es) (d : Dir) :
+    lastActivity (trun tm es) d + tm.T ≤ survivorDeadline (trun tm es) d := by
+  have key : ∀ (es : List TEv) (tm : Timer), WFt tm → AdmAll tm es → WFt (trun tm es) ∧ (trun tm es).T = tm.T := by
+    intro es
+    induction es with
+    | nil => intro tm h _; exact ⟨h, rfl⟩
+    | cons e es ih =>
+      intro tm h ha
+      obtain ⟨h1, h2⟩ := ha
+      have := ih (tstep tm e) (wft_step h h1) h2
+      rw [trun_cons]
+      exact ⟨this.1, this.2.trans (tstep_T tm e)⟩
+  obtain ⟨⟨w1, w2, _⟩, hT⟩ := key es tm hw ((adm_iff_admAll tm es).1 ha)
+  cases d <;> simp only [lastActivity, survivorDeadline, hT] <;> omega
+
+theorem half_closed_transfer_restarts (tm : Timer) (d : Dir) (t : Nat) (h0 : tm.expired = none) :
+    survivorDeadline (tstep tm (.progress d t)) d = t + tm.T := by
+  cases d <;> simp [tstep, h0, survivorDeadline]
+
 /-- **Never early** (corrected, minimal change): the closing event is the last one of the trace -/
 theorem idle_not_early_at_close (tm : Timer) (es : List TEv) (e : TEv) (hw : tm.WF)
     (ha : Adm tm (es ++ [e])) (hopen : (trun tm es).expired = none)
